@@ -269,6 +269,20 @@ ROUND7 = {
  'C20': 'two-slot profile strings: setter and getter select the same member (S1); per-call state of the generator (H1).',
 }
 
+ROUND8 = {
+ 'C02': 'a fallback that follows a search loop tests the result, not the searched collection (F1, fixture).',
+ 'C03': 'a loop that handles each group once remembers every group, not only the last (D2, fixture); pimpl pointers held in locals are spelled out (S2/S3).',
+ 'C04': 'an early return before the continuation of a recursive walk is guarded by null tests only (W1, also through a local lambda).',
+ 'C05': 'the internal-to-public equation type mapping is read from a looked-up table as well as from a switch (T2).',
+ 'C07': 'library key precedence: the URL as written wins whenever it is a key (K2, 4-row decision table).',
+ 'C08': 'reducer parameters named by type and ordinal; a thin wrapper around the recursion is followed (M1-M3).',
+ 'C09': 'the answer of an accessor that reports "no such index" with a sentinel is not used as a key (K1, fixture).',
+ 'C10': 'no whole-sequence comparison in the equality family (O2, fixture); helpers split off from doEquals belong to it (M1/M2); the NaN/infinity guards are found where they are written (U2).',
+ 'C11': 'equals() does not depend on an order that clone() does not preserve (C10.O2 borrowed).',
+ 'C18': 'the neighbour accessors agree: live entries only, scan not bounded by the requested index (A1).',
+ 'C20': 'index form of the dependency loop: runs from 0 to dependencyCount() in steps of one (G1).',
+}
+
 NOT_YET = {}
 
 NA = {}
@@ -289,7 +303,7 @@ def main():
                 'evidence_file': 'evidence/%s.json' % pid,
                 'replay_cmd_template': './check --replay {path}',
                 'engine': 'sa',
-                'level_claimed': {'category': 'other', 'text': c['text'] + (' Added after round-3 seeding: ' + ROUND3[pid] if pid in ROUND3 else '') + (' Added after round-4 seeding: ' + ROUND4[pid] if pid in ROUND4 else '') + (' Added after round-5 seeding and the independent false-alarm study: ' + ROUND5[pid] if pid in ROUND5 else '') + (' Added after round-6 seeding and the second false-alarm study: ' + ROUND6[pid] if pid in ROUND6 else '') + (' Added after round-7 seeding and the third false-alarm study (restructurings): ' + ROUND7[pid] if pid in ROUND7 else ''), 'design_ref': c['ref']},
+                'level_claimed': {'category': 'other', 'text': c['text'] + (' Added after round-3 seeding: ' + ROUND3[pid] if pid in ROUND3 else '') + (' Added after round-4 seeding: ' + ROUND4[pid] if pid in ROUND4 else '') + (' Added after round-5 seeding and the independent false-alarm study: ' + ROUND5[pid] if pid in ROUND5 else '') + (' Added after round-6 seeding and the second false-alarm study: ' + ROUND6[pid] if pid in ROUND6 else '') + (' Added after round-7 seeding and the third false-alarm study (restructurings): ' + ROUND7[pid] if pid in ROUND7 else '') + (' Added when the seeds left undecided and the lost anchors of the third study were revisited: ' + ROUND8[pid] if pid in ROUND8 else ''), 'design_ref': c['ref']},
                 'level_note': c['note'],
                 'technique': c['technique'],
             })
